@@ -6,6 +6,7 @@ From Coq Require Import ZArith List Bool.
 From V Require Import rcache.PyList rcache.RCacheModel rcache.RCacheSpec rcache.RQueryModel rcache.RQuerySpec
   rcache.RQueryThm rcache.RCacheThm rcache.RCacheQuery.
 From V Require rr.RRBase rr.RRNorm rcache.RReplace rcache.RReplaceThm.
+From V Require Import rcache.RGenBase gen.RQueryGen rcache.RQueryGenThm.
 Import ListNotations.
 Open Scope Z_scope.
 
@@ -109,6 +110,37 @@ Theorem C12_replace_example :
               = RRBase.Ok ru /\ RRNorm.bymonthday ru = [15]).
 Proof. exact RReplaceThm.replace_guard_example. Qed.
 Print Assumptions C12_replace_example.
+
+(* ---- the model is the code: gen/RQueryGen.v is REGENERATED from /repo/src/dateutil/rrule.py (class
+   rrulebase) by harness/gen_rcache.py on every run; each generated method equals the hand-written model
+   for ALL inputs (so every C12 theorem above is about the function the translator reads from the source) *)
+Theorem C12_gen_getitem : forall complete l it, gen_getitem complete l it = getitem complete l it.
+Proof. exact gen_getitem_eq. Qed.
+Print Assumptions C12_gen_getitem.
+
+Theorem C12_gen_contains : forall complete l x, gen_contains complete l x = QBool (contains complete l x).
+Proof. exact gen_contains_eq. Qed.
+Print Assumptions C12_gen_contains.
+
+Theorem C12_gen_count : forall len l, len = None \/ len = Some (zlen l) -> gen_count len l = QVal (count l).
+Proof. exact gen_count_eq. Qed.
+Print Assumptions C12_gen_count.
+
+Theorem C12_gen_before : forall complete l dt inc, gen_before complete l dt inc = before complete l dt inc.
+Proof. exact gen_before_eq. Qed.
+Print Assumptions C12_gen_before.
+
+Theorem C12_gen_after : forall complete l dt inc, gen_after complete l dt inc = after complete l dt inc.
+Proof. exact gen_after_eq. Qed.
+Print Assumptions C12_gen_after.
+
+Theorem C12_gen_xafter : forall complete l dt cnt inc, gen_xafter complete l dt cnt inc = xafter complete l dt cnt inc.
+Proof. exact gen_xafter_eq. Qed.
+Print Assumptions C12_gen_xafter.
+
+Theorem C12_gen_between : forall complete l a b inc, gen_between complete l a b inc = between complete l a b inc.
+Proof. exact gen_between_eq. Qed.
+Print Assumptions C12_gen_between.
 
 (* the hypothesis `incr l` is satisfiable and decidable, and it is needed: *)
 Theorem C12_incr_nonvacuous : incr [1; 3; 7] /\ (forall l, incrb l = true -> incr l).
